@@ -114,6 +114,24 @@ def scripts(rng, tmpdir):
         C.solve()
         C.lines += ['cal get_parameter_value 0 %d %s' % (uu, vlib.d2h(C.fvec[0])), 'cal add_calibration 0 %s 0' % h('m'), 'cal free 0']
         S.append(('calibration-%d-params' % (nknown + 4), C.lines))
+    # every way of making a parameter from another one: after a failed call the parameters it was to be built on are read (they are
+    # untouched), then the call is repeated
+    f1_, f2_, f3_ = 1e9, 2e9, 3e9
+    P = ['cal create 0', 'cal make_vector 0 3 %s %s' % (' '.join(vlib.d2h(f) for f in (f1_, f2_, f3_)), ' '.join(z(v) for v in (0.1 + 0.2j, 0.9 - 0.2j, -0.5 + 0.25j))),
+         'cal make_scalar 0 %s' % z(0.3 - 0.1j)]
+    probe_v = ['cal get_parameter_value 0 3 %s' % vlib.d2h(f) for f in (f1_, f2_, f3_, 1.5e9)] + ['cal get_parameter_value 0 4 %s' % vlib.d2h(f2_)]
+    makes = ['cal make_correlated 0 3 3 N %s' % ' '.join(vlib.d2h(s_) for s_ in (0.1, 0.2, 0.3)),            # sigma on the grid of the vector parameter
+             'cal make_correlated 0 3 2 F %s %s' % (' '.join(vlib.d2h(f) for f in (f1_, f3_)), ' '.join(vlib.d2h(s_) for s_ in (0.1, 0.2))),
+             'cal make_correlated 0 3 1 N %s' % vlib.d2h(0.05), 'cal make_correlated 0 4 1 N %s' % vlib.d2h(0.05), 'cal make_unknown 0 3', 'cal make_unknown 0 4',
+             'cal make_correlated 0 5 3 N %s' % ' '.join(vlib.d2h(s_) for s_ in (0.3, 0.2, 0.1)),           # correlated with a correlated one: the chain ends at the vector
+             'cal make_unknown 0 9']
+    pr = {}
+    for m_ in makes:
+        pr[len(P)] = probe_v
+        P.append(m_)
+    P += probe_v + ['cal get_parameter_value 0 5 %s' % vlib.d2h(f2_), 'cal get_parameter_value 0 11 %s' % vlib.d2h(f2_)]
+    P += ['cal delete_parameter 0 %d' % hd for hd in (11, 3, 5, 6, 7, 8, 9, 10, 12, 4)] + ['cal free 0']
+    S.append(('parameters-from-parameters', P, pr))
     return S
 
 
